@@ -619,6 +619,29 @@ class XformWorld:
                 continue
             st.buf = "unknown"
 
+    def _other_params(self, x) -> Dict[int, bytes]:
+        """Digest of the parameter tensors held by the elementary objects of x's component that are not part of x, are not
+        prediction caches of a generic transform, and do not share storage with a parameter of x."""
+        mine = {id(e) for e in walk_elems(x.obj)}
+        mine_storage = set()
+        for e in walk_elems(x.obj):
+            p_ = getattr(e, "params", None)
+            if isinstance(p_, Tensor):
+                mine_storage.add(p_.untyped_storage().data_ptr())
+        cache_members = set()
+        for st in self.st.values():
+            if isinstance(st.obj, CompositeTransform) and generic_pred(st.obj):
+                cache_members |= {id(m) for m in walk_elems(st.obj)}
+        out: Dict[int, bytes] = {}
+        for st in self.st.values():
+            o = st.obj
+            if st.comp != x.comp or isinstance(o, CompositeTransform) or id(o) in mine or id(o) in cache_members:
+                continue
+            p_ = getattr(o, "params", None)
+            if isinstance(p_, Tensor) and p_.untyped_storage().data_ptr() not in mine_storage:
+                out[id(o)] = tdig(p_)
+        return out
+
     def refreshed_unknown(self, x):
         """x re-predicted / re-read its parameters (a successful call or update()): what other objects buffered from x's
         *previous* prediction is outdated -- the objects linked (transitively) to a member of x, the composites that hold
@@ -1185,6 +1208,7 @@ class _Ops:
             if hasattr(pn, "calls") and not isinstance(cur, CompositeTransform):
                 link_net = pn
         calls_before = link_net.calls if link_net is not None else 0
+        others_before = self._other_params(x)
         k = op.get("interrupt")
         if k is not None:
             with Interrupt(int(k)) as mode:
@@ -1200,6 +1224,17 @@ class _Ops:
                 v2 = self.viol("C09", "link-recomputes-parameters", x, "call", {"predictor_invocations": link_net.calls - calls_before, "outcome": st})
                 self.set_buf(x, "unknown")
                 return StepResult("ok", "call-link-recomputed", [v1, v2])
+        changed_other = [oid for oid, d_ in self._other_params(x).items() if others_before.get(oid, d_) != d_]
+        if others_before:
+            self.c["checks"]["evaluation_leaves_other_parameters"] += 1
+        if changed_other:
+            # evaluating x re-reads / re-predicts x's own parameters; the parameters *held by other objects* (a conditioned
+            # copy, the transform an inverse was taken from, members of another composite) are not x's to write
+            names = sorted({cname(self.st[oid].obj) for oid in changed_other if oid in self.st})
+            self.set_buf(x, "unknown")
+            self.related_unknown(x, include_self=True)
+            return StepResult("ok", "call-wrote-others", [self.viol("C09", "evaluation-changed-other-parameters", x, "call", {"objects": names, "outcome": st}),
+                                                           self.viol("C07", "evaluation-changed-other-parameters", x, "call", {"objects": names, "outcome": st})])
         if st == "faulted":
             if "callable" in str(y):
                 self.c["faults"]["callable_raises"] += 1
@@ -1697,7 +1732,7 @@ class _Ops:
                     if st0 == "ok":
                         f0 = tw0.v if velocity else tw0.u
                         probe = ("nodes", pts, sample_field(f0.detach(), pts.expand(f0.shape[0], -1, -1), True))
-            elif fam == "dense" and x.affine_params and mode in ("sub", "subdivide", "acflip", "new"):
+            elif fam == "dense" and x.affine_params and mode in ("sub", "subdivide", "acflip", "new", "samedomain"):
                 # all new parameter nodes must lie inside the hull of the old ones
                 st0, ng = self.guarded(lambda: t.data_grid(new))
                 if st0 == "ok":
@@ -2022,7 +2057,21 @@ class _Ops:
         held_after = self._holds(t)
         if r is not t and held_after != held_before:
             changed = [k for k in held_before if held_before[k] != held_after.get(k)]
-            return StepResult("ok", "acc-changed-receiver", [self.viol("C09", "accessor-changed-receiver", x, "acc:" + how, {"changed": changed[:4]})])
+            vs = [self.viol("C09", "accessor-changed-receiver", x, "acc:" + how, {"changed": changed[:4]})]
+            if any(p_.valid and p_.t == x.hid for p_ in self.pairs):
+                # an inverse taken from the receiver reads what the receiver holds: it is no longer the inverse of what was evaluated
+                vs.append(self.viol("C07", "accessor-changed-receiver", x, "acc:" + how, {"changed": changed[:4], "receiver_has_inverse": True}))
+            return StepResult("ok", "acc-changed-receiver", vs)
+        if how == "condition" and isinstance(t, CompositeTransform) and isinstance(r, CompositeTransform) and r is not t:
+            # a conditioned copy of a composite evaluates (and, where parameters are predicted, rewrites) its members:
+            # they must be copies, not the member objects the receiver goes on using
+            self.c["checks"]["conditioned_composite_owns_its_members"] += 1
+            mem_r = {id(m): m for m in list(walk_elems(r)) + list(self.composites_below(r))}
+            mem_t = {id(m): m for m in list(walk_elems(t)) + list(self.composites_below(t))}
+            shared = set(mem_r) & set(mem_t)  # members reached through the composites themselves (link targets are shared by design)
+            if shared:
+                det = {"shared_members": sorted({cname(mem_t[i]) for i in shared})[:4]}
+                return StepResult("ok", "acc-shares-members", [self.viol("C09", "copy-shares-members", x, "acc:condition", det), self.viol("C07", "copy-shares-members", x, "acc:condition", det)])
         y = self._new_from(x, r, hid, how, buf=x.buf if how in ("grid", "data", "condition") else buf)
         if how in ("grid", "data", "condition"):
             self.set_cleared(y, "acc:" + how)
